@@ -61,6 +61,13 @@ pub struct SelectSupport<T: Transformation> {
 }
 
 impl<T: Transformation> SelectSupport<T> {
+    /// Verification hook: assembles a support structure from its serialized parts.
+    #[cfg(simple_sds_verif)]
+    #[doc(hidden)]
+    pub fn verif_from_parts(samples: IntVector, long: IntVector, short: IntVector) -> SelectSupport<T> {
+        SelectSupport { samples, long, short, _marker: marker::PhantomData, }
+    }
+
     /// Number of ones per superblock (4096).
     pub const SUPERBLOCK_SIZE: usize = 4096;
 
